@@ -509,6 +509,7 @@ func ruleSender() *Rule {
 				out = append(out, missing(id, "Log.GetEntry in (*Raft).sendAppendEntries")...)
 			}
 			out = append(out, fmtHandshakeSeek(p, id)...)
+			out = append(out, leaderResetsMatch(p, id)...)
 			return out
 		},
 	}
@@ -538,3 +539,58 @@ func fmtHandshakeSeek(p *Program, id string) []Obligation {
 }
 
 var _ = fmt.Sprint
+
+// leaderResetsMatch: becomeLeader sets matchIndex := 0 and nextIndex := LastIndex()+1 for every follower.
+func leaderResetsMatch(p *Program, id string) []Obligation {
+	fn := p.Func("(*Raft).becomeLeader")
+	if fn == nil {
+		return missing(id, "(*Raft).becomeLeader")
+	}
+	fr := NewRootFrame(fn)
+	matchFld, nextFld := p.Field("follower.matchIndex"), p.Field("follower.nextIndex")
+	res := map[string]string{}
+	inRange := map[string]bool{}
+	for _, b := range fn.Blocks {
+		for _, in := range b.Instrs {
+			s, fld := storeField(in)
+			if s == nil || (fld != matchFld && fld != nextFld) {
+				continue
+			}
+			name := "matchIndex"
+			if fld == nextFld {
+				name = "nextIndex"
+			}
+			res[name] = p.Canon(fr, s.Val).S
+			// the follower written is the value of a range over r.followers
+			if fa, ok := s.Addr.(*ssa.FieldAddr); ok {
+				if ex, ok := fa.X.(*ssa.Extract); ok && ex.Index == 2 {
+					if nx, ok := ex.Tuple.(*ssa.Next); ok {
+						if rg, ok := nx.Iter.(*ssa.Range); ok && p.Canon(fr, rg.X).S == "r.followers" {
+							inRange[name] = true
+						}
+					}
+				}
+			}
+		}
+	}
+	var out []Obligation
+	for _, name := range []string{"matchIndex", "nextIndex"} {
+		ob := Obligation{Rule: id, Construct: "MATCH-PROV reset of follower." + name + " for every follower in (*Raft).becomeLeader", Pos: p.Pos(fn.Pos())}
+		v, ok := res[name]
+		switch {
+		case !ok:
+			ob.Verdict = Violated
+			ob.Detail = "becomeLeader does not reset follower." + name + ": indices recorded under an earlier leadership of this node are reused (for matchIndex: replicas are counted toward commitment that were never verified in this term)"
+		case !inRange[name]:
+			ob.Verdict, ob.Detail = Violated, "the reset does not cover every follower (not inside a range over r.followers)"
+		case name == "matchIndex" && v != "0":
+			ob.Verdict, ob.Detail = Violated, "matchIndex reset to "+v+", must be 0"
+		case name == "nextIndex" && v != "(1 + r.log.LastIndex())" && v != "r.log.NextIndex()":
+			ob.Verdict, ob.Detail = Undecided, "nextIndex reset to "+v
+		default:
+			ob.Verdict, ob.Detail = Discharged, "reset to "+v+" for every follower"
+		}
+		out = append(out, ob)
+	}
+	return out
+}
